@@ -8,9 +8,11 @@ import (
 	"encoding/json"
 	"fmt"
 	"os"
+	"os/exec"
 	"path/filepath"
 	"sort"
 	"strings"
+	"syscall"
 	"time"
 
 	"go.uber.org/thriftrw/compile"
@@ -207,6 +209,15 @@ func programs() []program {
 		"m.thrift":    "include \"./n.thrift\"\nservice M extends n.N { void m() }\n",
 		"n.thrift":    "service N { void n() }\n",
 	}})
+	// 8. method names that only some kinds of generated types have (Error/ErrorName on
+	// exceptions, MethodName/EnvelopeType on argument and result structs) as FIELD names of
+	// plain structs, next to an exception and a service in sibling includes
+	ps = append(ps, program{Name: "kind-specific-method-names", Root: "root.thrift", Small: true, Files: map[string]string{
+		"root.thrift": "include \"./a.thrift\"\ninclude \"./b.thrift\"\ninclude \"./c.thrift\"\nstruct R { 1: optional a.P p; 2: optional b.X x; 3: optional c.Q q }\n",
+		"a.thrift":    "struct P { 1: optional string error; 2: optional string methodName; 3: optional string envelopeType; 4: optional string errorName }\n",
+		"b.thrift":    "exception X { 1: optional string msg }\nservice S { void f(1: string a) throws (1: X x) }\n",
+		"c.thrift":    "struct Q { 1: optional string error_name; 2: optional string method_name; 3: optional i32 envelope_type }\nunion U { 1: string error }\n",
+	}})
 	return ps
 }
 
@@ -266,6 +277,12 @@ func normalizeRequest(r *api.GenerateServiceRequest) string {
 }
 
 func execute(p program, os_ optSet, out string, c *choice.Ctx) string {
+	return executeIn(p, os_, out, c, false)
+}
+
+// executeIn: with reuse, the output directory is used as it stands (whatever an
+// earlier generation left there) and only the paths of want are reported.
+func executeIn(p program, os_ optSet, out string, c *choice.Ctx, reuse bool) string {
 	vmap.Reset()
 	if c != nil {
 		vmap.Chooser = func(site string, n, nAlts int) int { return c.Deviate(nAlts, site) }
@@ -275,7 +292,9 @@ func execute(p program, os_ optSet, out string, c *choice.Ctx) string {
 	for k, v := range p.Files {
 		fs["/m/"+k] = v
 	}
-	os.RemoveAll(out)
+	if !reuse {
+		os.RemoveAll(out)
+	}
 	var res string
 	func() {
 		defer func() {
@@ -349,7 +368,78 @@ func crossModuleConst(p *resolve.Prog, layout string) bool {
 	return false
 }
 
+// freshSpec describes one generation to be run as the FIRST generation of a new
+// process (VERIF_C10_FRESH names the file holding it).
+type freshSpec struct {
+	Program program `json:"program"`
+	Option  string  `json:"option"`
+	Prefix  []int   `json:"prefix"`
+	Out     string  `json:"out"`
+	Result  string  `json:"result"`
+}
+
+type freshResult struct {
+	Result string         `json:"result"`
+	Trace  []choice.Point `json:"trace"`
+}
+
+// runFresh is the child side: one generation, nothing before it.
+func runFresh(specPath string) {
+	var sp freshSpec
+	b, err := os.ReadFile(specPath)
+	if err != nil || json.Unmarshal(b, &sp) != nil {
+		return
+	}
+	var o optSet
+	for _, x := range optSets {
+		if x.name == sp.Option {
+			o = x
+		}
+	}
+	c := choice.Replay(sp.Prefix)
+	res := freshResult{}
+	func() {
+		defer func() {
+			if r := recover(); r != nil {
+				res.Result = fmt.Sprintf("HARNESS-PANIC %v", r)
+			}
+		}()
+		res.Result = execute(sp.Program, o, sp.Out, c)
+	}()
+	res.Trace = c.Trace
+	os.RemoveAll(sp.Out)
+	b, _ = json.Marshal(res)
+	os.WriteFile(sp.Result, b, 0o644)
+}
+
+// firstGeneration runs (p, o) under the order choices of c as the first generation of
+// a new process and feeds the points it met back into c.
+func firstGeneration(w *ev.W, p program, o optSet, out string, c *choice.Ctx) string {
+	specPath := filepath.Join(w.WorkDir, fmt.Sprintf("fresh-%d.json", w.Shard))
+	sp := freshSpec{Program: p, Option: o.name, Prefix: c.Prefix(), Out: out + "-fresh", Result: specPath + ".result"}
+	b, _ := json.Marshal(sp)
+	os.WriteFile(specPath, b, 0o644)
+	os.Remove(sp.Result)
+	cmd := exec.Command(os.Args[0], "C10", "--tier", w.Tier, "--worker", "0/1", "--workdir", w.WorkDir, "--out", specPath+".ckpt")
+	cmd.Env = append(os.Environ(), "VERIF_C10_FRESH="+specPath, "GOMAXPROCS=1")
+	cmd.SysProcAttr = &syscall.SysProcAttr{Pdeathsig: syscall.SIGKILL}
+	outb, err := cmd.CombinedOutput()
+	var res freshResult
+	rb, rerr := os.ReadFile(sp.Result)
+	if err != nil || rerr != nil || json.Unmarshal(rb, &res) != nil {
+		panic(fmt.Sprintf("fresh-process generation did not report: %v %v %.300s", err, rerr, outb))
+	}
+	for _, pt := range res.Trace {
+		c.Deviate(pt.N, pt.Label)
+	}
+	return res.Result
+}
+
 func run(w *ev.W) {
+	if sp := os.Getenv("VERIF_C10_FRESH"); sp != "" {
+		runFresh(sp)
+		return
+	}
 	// generated output goes to memory-backed scratch space when there is one
 	// (thousands of small generations; removed by the worker, and by the
 	// supervisor's Cleanup if a worker dies)
@@ -447,6 +537,137 @@ func run(w *ev.W) {
 			if strings.HasPrefix(baseClass, "PANIC") {
 				w.Violation("panic:"+p.Name, base, map[string]interface{}{"program": p, "options": o.name})
 			}
+		}
+	}
+	// history family: generations into ONE output directory that is not cleaned in
+	// between (regenerating in place after the sources or the options changed): for every
+	// program the option sequence default, NoZap, NoEmbedIDL, OutputFile, default, and every
+	// program after every other small program. What a generation writes must not depend on
+	// what the directory held before: every file of the fresh-directory result is there with
+	// the same bytes.
+	{
+		fresh := map[string]string{}
+		freshOf := func(p program, o optSet) string {
+			k := p.Name + "/" + o.name
+			if r, ok := fresh[k]; ok {
+				return r
+			}
+			fresh[k] = execute(p, o, out, nil)
+			return fresh[k]
+		}
+		reused := out + "-reused"
+		defer os.RemoveAll(reused)
+		type step struct {
+			p program
+			o optSet
+		}
+		check := func(hist []step) {
+			os.RemoveAll(reused)
+			var names []string
+			for _, st := range hist {
+				names = append(names, st.p.Name+"/"+st.o.name)
+				got := executeIn(st.p, st.o, reused, nil, true)
+				want := freshOf(st.p, st.o)
+				w.Count("generations_into_a_reused_directory", 1)
+				have := map[string]bool{}
+				for _, l := range strings.Split(got, "\n") {
+					have[l] = true
+				}
+				for i, l := range strings.Split(want, "\n") {
+					if i == 0 && strings.SplitN(got, "\n", 2)[0] != l {
+						w.Violation("reused-directory:outcome:"+st.p.Name, fmt.Sprintf("history %v: outcome %q in the reused directory, %q in a fresh one", names, strings.SplitN(got, "\n", 2)[0], l), map[string]interface{}{"history": names})
+						break
+					}
+					if !have[l] {
+						w.Violation("reused-directory:"+st.p.Name, fmt.Sprintf("history %v: the fresh-directory result has %q, the reused directory does not (it keeps bytes of the previous generation): %s", names, l, diffLines(want, got)), map[string]interface{}{"history": names})
+						break
+					}
+				}
+			}
+		}
+		byName := map[string]optSet{}
+		for _, o := range optSets {
+			byName[o.name] = o
+		}
+		idx := 0
+		for _, p := range ps {
+			idx++
+			if idx%w.Of != w.Shard {
+				continue
+			}
+			w.Eval(1)
+			w.Nontrivial(1)
+			var hist []step
+			for _, on := range []string{"default", "NoZap", "NoEmbedIDL", "OutputFile", "default", "NoRecurse", "default"} {
+				hist = append(hist, step{p, byName[on]})
+			}
+			check(hist)
+			w.Outcome("history:options")
+		}
+		for _, p := range ps {
+			for _, q := range ps {
+				if !p.Small || !q.Small || p.Name == q.Name {
+					continue
+				}
+				idx++
+				if idx%w.Of != w.Shard {
+					continue
+				}
+				w.Eval(1)
+				w.Nontrivial(1)
+				check([]step{{p, optSets[0]}, {q, optSets[0]}, {p, optSets[0]}})
+				w.Outcome("history:programs")
+			}
+		}
+	}
+	// first-generation family: the same (program, default options) run as the FIRST
+	// generation of a brand-new process, one process per execution, under every map order
+	// with <=1 deviating execution. Everything above runs thousands of generations inside
+	// one worker process, where package-level state of the generator is whatever earlier
+	// generations left; here it is pristine. All results agree with each other and with the
+	// result computed in this (long-running) worker process.
+	for i, p := range ps {
+		if !p.Small || i%w.Of != w.Shard {
+			continue
+		}
+		if w.Expired() {
+			w.Cap("time budget reached inside the first-generation family")
+			break
+		}
+		o := optSets[0]
+		w.Eval(1)
+		w.Nontrivial(1)
+		inproc := execute(p, o, out, nil)
+		distinct := map[string][]int{}
+		ex := &choice.Explorer{Bound: 1}
+		ex.Body = func(c *choice.Ctx) {
+			r := firstGeneration(w, p, o, out, c)
+			if _, ok := distinct[r]; !ok {
+				distinct[r] = c.Vector()
+			}
+		}
+		ex.Stop = w.Expired
+		ex.Run()
+		if ex.Stats.Capped {
+			w.Cap("time budget reached inside the first-generation family")
+		}
+		w.R.States += ex.Stats.States
+		w.R.Transitions += ex.Stats.Transitions
+		w.R.Traces += ex.Stats.Executions
+		w.Count("first_generation_processes", ex.Stats.Executions)
+		w.Outcome("first-generation:" + strings.SplitN(inproc, "\n", 2)[0])
+		if _, ok := distinct[inproc]; !ok || len(distinct) > 1 {
+			var descr []string
+			other := ""
+			for r, v := range distinct {
+				descr = append(descr, fmt.Sprintf("[%s as first generation of a process under choices %v]", strings.SplitN(r, "\n", 2)[0], v))
+				if r != inproc {
+					other = r
+				}
+			}
+			sort.Strings(descr)
+			w.Violation("first-generation:"+p.Name, fmt.Sprintf("program %s: in a process that has generated other programs before the result is %s; %s; differences: %s",
+				p.Name, strings.SplitN(inproc, "\n", 2)[0], strings.Join(descr, " "), diffLines(inproc, other)), map[string]interface{}{"program": p})
 		}
 	}
 	// family B: the systematic program family of C07 (every reference graph of <=3
